@@ -108,10 +108,12 @@ func (calc *AreaCentroidCalculator) AddPolygon(polygon *geom.Polygon) {
 	}
 }
 
+// setBasePoint sets the point the triangle fans of the polygon being added
+// are anchored at. Each polygon uses a vertex of its own: anchoring a small
+// polygon at a vertex of a far away one makes its fan triangles huge, and
+// their cancellation loses the polygon's contribution to rounding.
 func (calc *AreaCentroidCalculator) setBasePoint(basePt geom.Coord) {
-	if calc.basePt == nil {
-		calc.basePt = basePt
-	}
+	calc.basePt = basePt
 }
 
 func (calc *AreaCentroidCalculator) addShell(pts []float64) {
